@@ -4,6 +4,12 @@ PROPS = [json.loads(l)["id"] for l in open("properties.jsonl")]
 BASE = "cd /repo && /venv/bin/python -m pytest -ra -q -p no:cacheprovider --timeout=900 --continue-on-collection-errors"
 TECH = "contract-based deductive verification: sidecar contracts on the real functions, VCs generated from /repo's AST by pyvc, discharged by z3 (cvc5 fallback); counter-models replayed natively"
 CLAIMED = {
+ "C04": dict(text="Exact contracts of Substitutor.visit_<scalar> (raises SubstitutionError iff the value does not conform; otherwise the result is the schema with value := v) proved against the real bodies, then lemmas over those contracts and the specification functions: S % v accepts v, is reachable/self-consistent, and every value it accepts is pinned to v. The Validator verdict contract it composes with is re-proved in this check.",
+             note="Scalar schema types only so far: list / dict / any / alias substitution and from_native are pending (not yet under contract). Known finding: NaN.", ref="DESIGN.md 4.4"),
+ "C05": dict(text="Lemma over the exact scalar substitution contracts: every value accepted by S % v is accepted by S (all clauses of S stay in the result registry).",
+             note="Scalar schema types only so far; containers pending. Known finding: float isclose tolerance is not transitive.", ref="DESIGN.md 4.5"),
+ "C12": dict(text="Exceptional postcondition (only SubstitutionError, exactly when the value does not conform) of the scalar Substitutor visits and make_substitution_error proved against the bodies for arbitrary value objects; idempotence as a lemma over the exact contracts.",
+             note="Scalar schema types only so far; containers and from_native pending. Known finding: NaN.", ref="DESIGN.md 4.12"),
  "C01": dict(text="Every Generator.visit_* and Random.* under contract is proved, for a symbolic reachable and satisfiable schema of its class and for unconstrained symbolic RNG draws (so both extremes of every draw are covered), to raise nothing and to return a value satisfying the specification function conforms; composed with the C02 verdict contract this gives validate(S, fake(S)) has no errors.",
              note="RegexGenerator.generate is an assumed contract until C09 is built (pattern within the supported grammar is a stated precondition); stdlib random = assumed contracts; floats as reals. Six known findings (regions excluded, witnesses replayed each run). Generator.visit for custom types pending.",
              ref="DESIGN.md 4.1"),
